@@ -1512,7 +1512,7 @@ namespace awkward {
     else {
       ContentPtrVec contents;
       for (auto content : contents_) {
-        contents.push_back(content.get()->num(posaxis, depth));
+        contents.push_back(content.get()->num(posaxis, posaxis < 0 ? 0 : depth));
       }
       UnionArrayOf<T, I> out(Identities::none(),
                              util::Parameters(),
@@ -1539,7 +1539,7 @@ namespace awkward {
       ContentPtrVec contents;
       for (auto content : contents_) {
         std::pair<Index64, ContentPtr> pair =
-          content.get()->offsets_and_flattened(posaxis, depth);
+          content.get()->offsets_and_flattened(posaxis, posaxis < 0 ? 0 : depth);
         Index64 offsets = pair.first;
         offsetsptrs.push_back(offsets.ptr());
         offsetsraws.push_back(offsets.data());
@@ -1971,7 +1971,7 @@ namespace awkward {
     else {
       ContentPtrVec contents;
       for (auto content : contents_) {
-        contents.emplace_back(content.get()->rpad(target, posaxis, depth));
+        contents.emplace_back(content.get()->rpad(target, posaxis, posaxis < 0 ? 0 : depth));
       }
       UnionArrayOf<T, I> out(identities_,
                              parameters_,
@@ -1995,7 +1995,7 @@ namespace awkward {
       ContentPtrVec contents;
       for (auto content : contents_) {
         contents.emplace_back(
-          content.get()->rpad_and_clip(target, posaxis, depth));
+          content.get()->rpad_and_clip(target, posaxis, posaxis < 0 ? 0 : depth));
       }
       UnionArrayOf<T, I> out(identities_,
                              parameters_,
@@ -2045,7 +2045,7 @@ namespace awkward {
     else {
       ContentPtrVec contents;
       for (auto content : contents_) {
-        contents.push_back(content.get()->localindex(posaxis, depth));
+        contents.push_back(content.get()->localindex(posaxis, posaxis < 0 ? 0 : depth));
       }
       return std::make_shared<UnionArrayOf<T, I>>(identities_,
                                                   util::Parameters(),
@@ -2080,7 +2080,7 @@ namespace awkward {
                                                        recordlookup,
                                                        parameters,
                                                        posaxis,
-                                                       depth));
+                                                       posaxis < 0 ? 0 : depth));
       }
       return std::make_shared<UnionArrayOf<T, I>>(identities_,
                                                   util::Parameters(),
